@@ -46,15 +46,20 @@ def indep_number(tok: str):
     return float(t) if ('.' in t or 'e' in t.lower()) else int(t)
 
 
-def _run(job):
+def _run(job, fixed_path=None):
     """one real run; returns report text, client result, CSV, JSON and the names/values of the output parameters at print time"""
+    if isinstance(job, tuple) and job and job[0] == 'seq':
+        # the same input path is used twice (content A, then rewritten to content B): report path and parse caches are keyed on the path
+        shared = Path(tempfile.gettempdir()) / f'c10_seq_{uuid.uuid4().hex}.txt'
+        _run(job[1], fixed_path=shared)
+        return _run(job[2], fixed_path=shared)
     params = job
     os.environ['GEOPHIRES_X_VERIF'] = '1'
     from geophires_x import GEOPHIRESv3
     from geophires_x_client import GeophiresInputParameters, GeophiresXClient
     logging.disable(logging.CRITICAL)
     tmp = Path(tempfile.gettempdir())
-    inp = tmp / f'c10_{uuid.uuid4().hex}.txt'
+    inp = fixed_path if fixed_path is not None else tmp / f'c10_{uuid.uuid4().hex}.txt'
     inp.write_text(geo.params_to_text(params))
     out = {'ok': False, 'error': None}
     names = {}
@@ -99,7 +104,7 @@ def _run(job):
         out['error'] = f'{type(e).__name__}: {e}'[:300]
     finally:
         GEOPHIRESv3._VERIF_OBSERVERS.remove(obs)
-        for f in (inp, ip.get_output_file_path(), str(ip.get_output_file_path()).replace('.out', '.json')):
+        for f in ((inp,) if fixed_path is None else ()) + (ip.get_output_file_path(), str(ip.get_output_file_path()).replace('.out', '.json')):
             with contextlib.suppress(OSError):
                 os.unlink(f)
     return out
@@ -266,13 +271,35 @@ def check_one(chk: core.Check, name, r, lines_out, pending):
         chk.fail('C10/json-path', 'the client looks for the JSON somewhere else than next to the report', rep)
     snap = r.get('snap') or {}
     for label, (path, agg, scale, d, unit) in SPEC.items():
-        if agg != 'scalar' or path.startswith('expr:'):
+        if path.startswith('expr:') or agg not in ('scalar', 'mean', 'max', 'min', 'first'):
             continue
         p = get(snap, path)
-        if p is None or not isinstance(p.get('value'), (int, float)) or isinstance(p.get('value'), bool):
+        if p is None:
             continue
         entry = js.get(p['Name'])
-        if not isinstance(entry, dict) or not isinstance(entry.get('value'), (int, float)):
+        if not isinstance(entry, dict):
+            continue
+        if agg != 'scalar':
+            # a series both carry: the report shows its aggregate, the JSON the series itself
+            vals = entry.get('value')
+            if not (isinstance(vals, list) and vals and all(isinstance(x, (int, float)) and not isinstance(x, bool) and math.isfinite(x) for x in vals)) or len(vals) > 3000:
+                continue
+            if not isinstance(p.get('value'), list) or len(p['value']) != len(vals) or \
+                    not all(isinstance(a, (int, float)) and math.isclose(a, b, rel_tol=1e-9, abs_tol=1e-12) for a, b in zip(p['value'], vals)):
+                continue      # another quantity registered under the same name (the JSON merges the modules' dictionaries by name): not the series the line summarises
+            ln = [x for x in lines if x.strip().startswith(label + ':')]
+            if not ln:
+                continue
+            shown = ln[0].strip()[len(label) + 1:].split()
+            if not shown or shown[0] == 'N/A':
+                continue
+            cid = f'j{len(pending)}'
+            lines_out.append(f'figure {cid} agg={agg} scale={core.frac(scale)} d={d} xs={",".join(core.frac(x) for x in vals)}')
+            pending.append((name, 'json', label, (shown[0], p['Name'], f'{agg} of {len(vals)} values'), rep))
+            continue
+        if not isinstance(p.get('value'), (int, float)) or isinstance(p.get('value'), bool):
+            continue
+        if not isinstance(entry.get('value'), (int, float)):
             continue
         ln = [x for x in lines if x.strip().startswith(label + ':')]
         if not ln:
@@ -376,6 +403,12 @@ def extra_cases(chk: core.Check):
     dcase = geo.base_params(2, 1, 1, L=9, n=1)
     dcase.update({'Units:Bottom-hole temperature': 'degF', 'Units:Total Capital Cost': 'KUSD'})
     out.append(('directive', dcase))
+    cent = geo.base_params(2, 1, 1, L=100, n=1)
+    cent['Construction Years'] = 3
+    out.append(('century', cent))                      # year indices reach three digits
+    a_ = geo.base_params(2, 1, 1, L=7, n=1)
+    b_ = geo.base_params(3, 2, 9, L=12, n=2)
+    out.append(('same-path-rewritten', ('seq', a_, b_)))   # second parse of a report path already parsed in this process
     bigrev = geo.base_params(2, 1, 1, L=30, n=1)
     bigrev.update({'Number of Production Wells': 16, 'Number of Injection Wells': 16, 'Starting Electricity Sale Price': 0.15, 'Ending Electricity Sale Price': 0.15, 'Gradient 1': 70})
     out.append(('billion-revenue', bigrev))
